@@ -659,7 +659,7 @@ def c18(prop, tier, replay):
 # C15: history independence of reads (schedules) + determinism of muxing / parsing
 
 def canned(name):
-    return list(open(os.path.join("/repo/tests/samples", name), "rb").read())
+    return list(open(os.path.join(REPO, "tests/samples", name), "rb").read())
 
 
 def probe_counts(files, wd):
@@ -873,7 +873,7 @@ def c10(prop, tier, replay):
 
 def tree_hash():
     h = hashlib.sha256()
-    for root in ("/repo/src", os.path.join(HARNESS, "src"), SPEC, os.path.join(VERIF, "bin")):
+    for root in (os.path.join(REPO, "src"), os.path.join(HARNESS, "src"), SPEC, os.path.join(VERIF, "bin")):
         for dp, dn, fn in sorted(os.walk(root)):
             dn.sort()
             for f in sorted(fn):
@@ -884,7 +884,7 @@ def tree_hash():
                         h.update(open(p, "rb").read())
                     except OSError:
                         pass
-    for p in ("/repo/Cargo.toml", "/repo/Cargo.lock"):
+    for p in (os.path.join(REPO, "Cargo.toml"), os.path.join(REPO, "Cargo.lock")):
         h.update(open(p, "rb").read())
     return h.hexdigest()[:24]
 
